@@ -543,6 +543,64 @@ func (t *tables) extractJSONWrites(f *ssa.Function) {
 			}
 			s := &site{kind: siteJSONWrite, fn: f, instr: in, writer: g, valArg: valArg}
 			if kind != 0 {
+				// for _, r := range [...]struct{name string; col T}{{"to", o.To}, …} { write(b, r.name, r.col) }: one write per
+				// row, with that row's constant name and that row's value
+				if rows, nf, table, isRow := literalTableRowsOf(unwrap(args[gi.nameParam])); isRow && len(rows) > 0 {
+					allConst := true
+					for _, row := range rows {
+						if _, isC := constString(row[nf]); !isC {
+							allConst = false
+						}
+					}
+					if allConst {
+						for j, row := range rows {
+							name, _ := constString(row[nf])
+							rs := &site{kind: siteJSONWrite, fn: f, instr: in, writer: g, valArg: valArg}
+							for _, sf := range gi.suffixes {
+								rs.names = append(rs.names, name+sf)
+							}
+							rs.names = uniq(rs.names)
+							rowVal := func(v ssa.Value) ssa.Value {
+								if r3, f3, t3, ok3 := literalTableRowsOf(unwrap(v)); ok3 && t3 == table && j < len(r3) {
+									return r3[j][f3]
+								}
+								return nil
+							}
+							rs.guards = substGuards(t.pr, t.pr.dominatingGuards(b), func(v ssa.Value) []FieldPath {
+								if rv := rowVal(v); rv != nil {
+									return t.pr.prov(rv).list()
+								}
+								return nil
+							})
+							rprov := newProv()
+							for i, a := range args {
+								if i == gi.nameParam || isByteBufPtr(a.Type()) {
+									continue
+								}
+								if _, isConst := a.(*ssa.Const); isConst {
+									continue
+								}
+								if rv := rowVal(a); rv != nil {
+									rprov.merge(t.pr.prov(rv))
+								} else {
+									rprov.merge(t.pr.prov(a))
+								}
+							}
+							refs := rprov.list()
+							if len(refs) == 0 {
+								rs.note = "value written does not derive from a struct field"
+								t.jsW[f] = append(t.jsW[f], rs)
+								continue
+							}
+							for _, r := range refs {
+								cp := *rs
+								cp.field = r
+								t.jsW[f] = append(t.jsW[f], &cp)
+							}
+						}
+						continue
+					}
+				}
 				s.note = "name is not a compile-time constant"
 				t.nameProblems = append(t.nameProblems, s)
 				continue
